@@ -69,55 +69,59 @@ theorem setErrs_tidAt (recs : Recs) (slot : Nat) (f : List Nat → List Nat) (j 
 theorem setPtr_ptr (s : ErrState) (t : Nat) (p : Option Ptr) (u : Nat) :
     (setPtr s t p).ptr u = if u = t then p else s.ptr u := rfl
 
-structure EInv (s : ErrState) : Prop where
+structure EInv (inl : Bool) (s : ErrState) : Prop where
   nodup : (s.tab.recs.map (·.1)).Nodup
-  ptrOk : ∀ t p, s.ptr t = some p → p.gen = s.tab.gen → tidAt s.tab.recs p.slot = some t
+  ptrOk : ∀ t p, s.ptr t = some p → (inl = false ∨ p.gen = s.tab.gen) → tidAt s.tab.recs p.slot = some t
   ptrLe : ∀ t p, s.ptr t = some p → p.gen ≤ s.tab.gen
   obsOk : ∀ o ∈ s.obs, o.owner = o.thread
 
-theorem einv_init (tab : ErrTable) (h : tab.recs = []) : EInv { tab := tab, ptr := fun _ => none, obs := [] } :=
+theorem einv_init (inl : Bool) (tab : ErrTable) (h : tab.recs = []) : EInv inl { tab := tab, ptr := fun _ => none, obs := [] } :=
   ⟨by simp [h], fun _ _ hp => (by cases hp), fun _ _ hp => (by cases hp), fun _ ho => (by cases ho)⟩
 
-theorem insertRec_gen (tab : ErrTable) (t : Nat) :
-    (insertRec tab t).gen = tab.gen ∧ (insertRec tab t).recs = tab.recs ++ [(t, [])] ∨
-    (insertRec tab t).gen = tab.gen + 1 ∧ (insertRec tab t).recs = (tab.recs ++ [(t, [])]).reverse := by
+theorem insertRec_gen (inl : Bool) (tab : ErrTable) (t : Nat) :
+    ((insertRec inl tab t).gen = tab.gen ∨ inl = false ∧ (insertRec inl tab t).gen = tab.gen + 1) ∧
+      (insertRec inl tab t).recs = tab.recs ++ [(t, [])] ∨
+    inl = true ∧ (insertRec inl tab t).gen = tab.gen + 1 ∧ (insertRec inl tab t).recs = (tab.recs ++ [(t, [])]).reverse := by
   unfold insertRec
   simp only
-  split <;> simp [rehash]
+  cases inl <;> split <;> simp [rehash]
 
-theorem estep_inv {s s' : ErrState} {t : Nat} {st : ErrStep} (hinv : EInv s) (h : estep s t st = .ok s') : EInv s' := by
+theorem ptr_of_find {s : ErrState} {t u : Nat} {p : Ptr} {recs : Recs} {g : Nat}
+    (hp : (if u = t then (findSlot t recs).map (fun i => (⟨g, i⟩ : Ptr)) else s.ptr u) = some p) :
+    (u = t ∧ p.gen = g ∧ tidAt recs p.slot = some t) ∨ (u ≠ t ∧ s.ptr u = some p) := by
+  split at hp
+  · rename_i hu
+    cases hf : findSlot t recs with
+    | none => simp [hf] at hp
+    | some i =>
+      simp only [hf, Option.map_some, Option.some.injEq] at hp
+      subst hp
+      exact Or.inl ⟨hu, rfl, findSlot_some hf⟩
+  · rename_i hu
+    exact Or.inr ⟨hu, hp⟩
+
+theorem estep_inv {inl : Bool} {s s' : ErrState} {t : Nat} {st : ErrStep} (hinv : EInv inl s)
+    (h : estep inl s t st = .ok s') : EInv inl s' := by
   cases st with
   | getRec =>
     simp only [estep, Except.ok.injEq] at h
     subst h
     refine ⟨hinv.nodup, ?_, ?_, hinv.obsOk⟩
     · intro u p hp hg
-      simp only [setPtr] at hp
-      split at hp
-      · rename_i hu; subst hu
-        cases hf : findSlot u s.tab.recs with
-        | none => simp [hf] at hp
-        | some i =>
-          simp only [hf, Option.map_some, Option.some.injEq] at hp
-          subst hp
-          exact findSlot_some hf
-      · exact hinv.ptrOk u p hp hg
+      rw [setPtr_ptr] at hp
+      rcases ptr_of_find hp with ⟨hu, _, hok⟩ | ⟨_, hp'⟩
+      · subst hu; exact hok
+      · exact hinv.ptrOk u p hp' hg
     · intro u p hp
-      simp only [setPtr] at hp
-      split at hp
-      · cases hf : findSlot t s.tab.recs with
-        | none => simp [hf] at hp
-        | some i =>
-          simp only [hf, Option.map_some, Option.some.injEq] at hp
-          subst hp
-          exact Nat.le_refl _
-      · exact hinv.ptrLe u p hp
+      rw [setPtr_ptr] at hp
+      rcases ptr_of_find hp with ⟨_, hgen, _⟩ | ⟨_, hp'⟩
+      · simp only [setPtr_tab]; omega
+      · exact hinv.ptrLe u p hp'
   | newRecIfNull =>
     simp only [estep] at h
     split at h
     · cases h; exact hinv
-    · rename_i hnone
-      split at h
+    · split at h
       · cases h; exact hinv
       · rename_i hfs
         simp only [Except.ok.injEq] at h
@@ -130,22 +134,22 @@ theorem estep_inv {s s' : ErrState} {t : Nat} {st : ErrStep} (hinv : EInv s) (h 
           simp only [List.map_cons, List.map_nil, List.mem_singleton] at hb
           subst hb
           exact fun e => hfresh (e ▸ ha)
-        have hmem : t ∈ (s.tab.recs ++ [(t, ([] : List Nat))]).map (·.1) := by simp
-        rcases insertRec_gen s.tab t with ⟨hg, hr⟩ | ⟨hg, hr⟩
-        · refine ⟨?_, ?_, ?_, hinv.obsOk⟩
+        rcases insertRec_gen inl s.tab t with ⟨hg, hr⟩ | ⟨hinl, hg, hr⟩
+        · -- records stay where they are
+          refine ⟨?_, ?_, ?_, hinv.obsOk⟩
           · simpa [hr] using hnd
           · intro u p hp hpg
             simp only [setPtr_tab] at hpg ⊢
-            simp only [setPtr] at hp
-            split at hp
-            · rename_i hu; subst hu
-              cases hf : findSlot u (insertRec s.tab u).recs with
-              | none => simp [hf] at hp
-              | some i =>
-                simp only [hf, Option.map_some, Option.some.injEq] at hp
-                subst hp
-                exact findSlot_some hf
-            · have h1 := hinv.ptrOk u p hp (by simpa [hg] using hpg)
+            rw [setPtr_ptr] at hp
+            rcases ptr_of_find hp with ⟨hu, _, hok⟩ | ⟨_, hp'⟩
+            · subst hu; exact hok
+            · have hle := hinv.ptrLe u p hp'
+              have h1 := hinv.ptrOk u p hp' (by
+                rcases hpg with h0 | h0
+                · exact Or.inl h0
+                · rcases hg with hg | ⟨hf, _⟩
+                  · exact Or.inr (by omega)
+                  · exact Or.inl hf)
               simp only [hr, tidAt] at h1 ⊢
               cases hx : s.tab.recs[p.slot]? with
               | none => simp [hx] at h1
@@ -154,43 +158,30 @@ theorem estep_inv {s s' : ErrState} {t : Nat} {st : ErrStep} (hinv : EInv s) (h 
                 rw [List.getElem?_append_left hlt, hx]
                 simpa [hx] using h1
           · intro u p hp
-            simp only [setPtr] at hp
-            split at hp
-            · cases hf : findSlot t (insertRec s.tab t).recs with
-              | none => simp [hf] at hp
-              | some i =>
-                simp only [hf, Option.map_some, Option.some.injEq] at hp
-                subst hp
-                exact Nat.le_refl _
-            · have := hinv.ptrLe u p hp
-              simp only [setPtr_tab, hg]; exact this
-        · refine ⟨?_, ?_, ?_, hinv.obsOk⟩
+            rw [setPtr_ptr] at hp
+            simp only [setPtr_tab]
+            rcases ptr_of_find hp with ⟨_, hgen, _⟩ | ⟨_, hp'⟩
+            · omega
+            · have := hinv.ptrLe u p hp'
+              rcases hg with hg | ⟨_, hg⟩ <;> omega
+        · -- inline records: the array is replaced, every older pointer is out of date
+          refine ⟨?_, ?_, ?_, hinv.obsOk⟩
           · simp only [setPtr_tab, hr, List.map_reverse]; exact (List.reverse_perm _).nodup_iff.mpr hnd
           · intro u p hp hpg
             simp only [setPtr_tab] at hpg ⊢
-            simp only [setPtr] at hp
-            split at hp
-            · rename_i hu; subst hu
-              cases hf : findSlot u (insertRec s.tab u).recs with
-              | none => simp [hf] at hp
-              | some i =>
-                simp only [hf, Option.map_some, Option.some.injEq] at hp
-                subst hp
-                exact findSlot_some hf
-            · have := hinv.ptrLe u p hp
-              simp only [hg] at hpg
-              omega
+            rw [setPtr_ptr] at hp
+            rcases ptr_of_find hp with ⟨hu, _, hok⟩ | ⟨_, hp'⟩
+            · subst hu; exact hok
+            · have := hinv.ptrLe u p hp'
+              rcases hpg with h0 | h0
+              · rw [hinl] at h0; cases h0
+              · omega
           · intro u p hp
-            simp only [setPtr] at hp
-            split at hp
-            · cases hf : findSlot t (insertRec s.tab t).recs with
-              | none => simp [hf] at hp
-              | some i =>
-                simp only [hf, Option.map_some, Option.some.injEq] at hp
-                subst hp
-                exact Nat.le_refl _
-            · have := hinv.ptrLe u p hp
-              simp only [setPtr_tab, hg]; omega
+            rw [setPtr_ptr] at hp
+            simp only [setPtr_tab]
+            rcases ptr_of_find hp with ⟨_, hgen, _⟩ | ⟨_, hp'⟩
+            · omega
+            · have := hinv.ptrLe u p hp'; omega
   | read =>
     simp only [estep] at h
     split at h
@@ -204,7 +195,10 @@ theorem estep_inv {s s' : ErrState} {t : Nat} {st : ErrStep} (hinv : EInv s) (h 
       split at h
       · cases h
       · rename_i hg
-        have hg' : p.gen = s.tab.gen := by simpa using hg
+        have hg' : inl = false ∨ p.gen = s.tab.gen := by
+          cases inl
+          · exact Or.inl rfl
+          · right; simpa using hg
         split at h
         · rename_i o es hx
           cases h
@@ -221,8 +215,7 @@ theorem estep_inv {s s' : ErrState} {t : Nat} {st : ErrStep} (hinv : EInv s) (h 
     simp only [estep] at h
     split at h
     · cases h; exact hinv
-    · rename_i p hp
-      split at h
+    · split at h
       · cases h
       · cases h
         refine ⟨?_, ?_, hinv.ptrLe, hinv.obsOk⟩
@@ -234,8 +227,7 @@ theorem estep_inv {s s' : ErrState} {t : Nat} {st : ErrStep} (hinv : EInv s) (h 
     simp only [estep] at h
     split at h
     · cases h; exact hinv
-    · rename_i p hp
-      split at h
+    · split at h
       · cases h
       · cases h
         refine ⟨?_, ?_, hinv.ptrLe, hinv.obsOk⟩
@@ -244,8 +236,8 @@ theorem estep_inv {s s' : ErrState} {t : Nat} {st : ErrStep} (hinv : EInv s) (h 
           simp only [setErrs_tidAt]
           exact hinv.ptrOk u q hq hqg
 
-theorem errRun_inv {s s' : ErrState} {sched : List (Nat × ErrStep)} (hinv : EInv s) (h : errRun s sched = .ok s') :
-    EInv s' := by
+theorem errRun_inv {inl : Bool} {s s' : ErrState} {sched : List (Nat × ErrStep)} (hinv : EInv inl s)
+    (h : errRun inl s sched = .ok s') : EInv inl s' := by
   induction sched generalizing s with
   | nil => simp only [errRun, Except.ok.injEq] at h; subst h; exact hinv
   | cons x r ih =>
@@ -255,6 +247,19 @@ theorem errRun_inv {s s' : ErrState} {sched : List (Nat × ErrStep)} (hinv : EIn
     · rename_i s1 h1
       exact ih (estep_inv hinv h1) h
     · cases h
+
+/-- With separately allocated records no step can fail. -/
+theorem estep_heap (s : ErrState) (t : Nat) (st : ErrStep) : ∃ s', estep false s t st = .ok s' := by
+  cases st <;> simp only [estep, Bool.false_and, Bool.false_eq_true, if_false] <;> repeat (first | exact ⟨_, rfl⟩ | split)
+
+theorem errRun_heap (s : ErrState) (sched : List (Nat × ErrStep)) : ∃ s', errRun false s sched = .ok s' := by
+  induction sched generalizing s with
+  | nil => exact ⟨s, rfl⟩
+  | cons x r ih =>
+    obtain ⟨t, st⟩ := x
+    obtain ⟨s1, h1⟩ := estep_heap s t st
+    obtain ⟨s2, h2⟩ := ih s1
+    exact ⟨s2, by simp only [errRun, h1, h2]⟩
 
 /-! ### below the threshold the array is never replaced -/
 
@@ -282,8 +287,8 @@ structure Small (T : List Nat) (s : ErrState) : Prop where
 theorem small_init (T : List Nat) : Small T errInit :=
   ⟨rfl, rfl, rfl, List.nodup_nil, (by intro x hx; cases hx), fun _ _ h => (by cases h)⟩
 
-theorem estep_small {T : List Nat} (hT : T.length < staleThreshold) {s : ErrState} {t : Nat} (ht : t ∈ T)
-    (st : ErrStep) (h : Small T s) : ∃ s', estep s t st = .ok s' ∧ Small T s' := by
+theorem estep_small (inl : Bool) {T : List Nat} (hT : T.length < staleThreshold) {s : ErrState} {t : Nat} (ht : t ∈ T)
+    (st : ErrStep) (h : Small T s) : ∃ s', estep inl s t st = .ok s' ∧ Small T s' := by
   cases st with
   | getRec =>
     refine ⟨_, rfl, h.gen0, h.size, h.used, h.nodup, h.sub, ?_⟩
@@ -323,7 +328,7 @@ theorem estep_small {T : List Nat} (hT : T.length < staleThreshold) {s : ErrStat
           apply afterInsert_no_enlarge
           rw [h.size, h.used]
           exact small_no_enlarge _ (by omega)
-        have hins : insertRec s.tab t = ErrTable.mk s.tab.size (s.tab.used + 1)
+        have hins : insertRec inl s.tab t = ErrTable.mk s.tab.size (s.tab.used + 1)
             (afterInsert s.tab.size (s.tab.used + 1) s.tab.resize).1 s.tab.gen (s.tab.recs ++ [(t, [])]) := by
           unfold insertRec
           simp only [hno, Bool.false_eq_true, if_false]
@@ -346,7 +351,7 @@ theorem estep_small {T : List Nat} (hT : T.length < staleThreshold) {s : ErrStat
     · exact ⟨_, rfl, h.gen0, h.size, h.used, h.nodup, h.sub, h.ptr0⟩
     · rename_i p hp
       have hg : p.gen = s.tab.gen := by rw [h.ptr0 t p hp, h.gen0]
-      simp only [hg, ne_eq, not_true_eq_false, if_false]
+      simp only [hg, ne_eq, not_true_eq_false, decide_false, Bool.and_false, Bool.false_eq_true, if_false]
       split
       · exact ⟨_, rfl, h.gen0, h.size, h.used, h.nodup, h.sub, h.ptr0⟩
       · exact ⟨s, rfl, h⟩
@@ -356,7 +361,7 @@ theorem estep_small {T : List Nat} (hT : T.length < staleThreshold) {s : ErrStat
     · exact ⟨s, rfl, h⟩
     · rename_i p hp
       have hg : p.gen = s.tab.gen := by rw [h.ptr0 t p hp, h.gen0]
-      simp only [hg, ne_eq, not_true_eq_false, if_false]
+      simp only [hg, ne_eq, not_true_eq_false, decide_false, Bool.and_false, Bool.false_eq_true, if_false]
       refine ⟨_, rfl, h.gen0, h.size, ?_, ?_, ?_, h.ptr0⟩
       · have := congrArg List.length (setErrs_map_fst s.tab.recs p.slot (· ++ [e]))
         simp only [List.length_map] at this
@@ -369,7 +374,7 @@ theorem estep_small {T : List Nat} (hT : T.length < staleThreshold) {s : ErrStat
     · exact ⟨s, rfl, h⟩
     · rename_i p hp
       have hg : p.gen = s.tab.gen := by rw [h.ptr0 t p hp, h.gen0]
-      simp only [hg, ne_eq, not_true_eq_false, if_false]
+      simp only [hg, ne_eq, not_true_eq_false, decide_false, Bool.and_false, Bool.false_eq_true, if_false]
       refine ⟨_, rfl, h.gen0, h.size, ?_, ?_, ?_, h.ptr0⟩
       · have := congrArg List.length (setErrs_map_fst s.tab.recs p.slot (fun _ => []))
         simp only [List.length_map] at this
@@ -377,13 +382,13 @@ theorem estep_small {T : List Nat} (hT : T.length < staleThreshold) {s : ErrStat
       · simpa [setErrs_map_fst] using h.nodup
       · simpa [setErrs_map_fst] using h.sub
 
-theorem errRun_small {T : List Nat} (hT : T.length < staleThreshold) (sched : List (Nat × ErrStep))
-    (hs : ∀ x ∈ sched, x.1 ∈ T) {s : ErrState} (h : Small T s) : ∃ s', errRun s sched = .ok s' ∧ Small T s' := by
+theorem errRun_small (inl : Bool) {T : List Nat} (hT : T.length < staleThreshold) (sched : List (Nat × ErrStep))
+    (hs : ∀ x ∈ sched, x.1 ∈ T) {s : ErrState} (h : Small T s) : ∃ s', errRun inl s sched = .ok s' ∧ Small T s' := by
   induction sched generalizing s with
   | nil => exact ⟨s, rfl, h⟩
   | cons x r ih =>
     obtain ⟨t, st⟩ := x
-    obtain ⟨s1, h1, hs1⟩ := estep_small hT (hs (t, st) List.mem_cons_self) st h
+    obtain ⟨s1, h1, hs1⟩ := estep_small inl hT (hs (t, st) List.mem_cons_self) st h
     obtain ⟨s2, h2, hs2⟩ := ih (fun y hy => hs y (List.mem_cons_of_mem _ hy)) hs1
     exact ⟨s2, by simp only [errRun, h1, h2], hs2⟩
 
